@@ -23,6 +23,9 @@ import (
 // the server must then close the connection.
 func Play(beh M, rng *rand.Rand, proj *Projection) ([]M, error) {
 	cfg := Sub(beh, "cfg")
+	if S(cfg, "limit") == "sym" {
+		cfg["_limit"] = SymLimits[rng.Intn(len(SymLimits))]
+	}
 	x, err := NewExec(cfg)
 	if err != nil {
 		return nil, err
